@@ -111,37 +111,51 @@ func runCover(file string, timeoutS int, seed int, deep bool) SolveResult {
 	return r
 }
 
-// discharge tries the solvers on a query file. all=true runs every solver and cross-checks.
+// discharge tries the solvers on a query file.
+// quick (all=false): the primary solver, then - only if it does not answer - a race of the other solvers and of
+// variants of the primary; the first definite answer wins.
+// thorough (all=true): the primary solver with the full timeout and, in parallel, the two other solvers with a shorter
+// one as a cross-check (a sat/unsat disagreement is reported as an error); variants only if nobody answered.
 func discharge(file string, timeoutS int, seed int, all bool) (SolveResult, []SolveResult) {
 	var tried []SolveResult
-	r := runSolver(solvers[0], file, timeoutS, seed)
-	tried = append(tried, r)
-	if !all && (r.Verdict == "unsat" || r.Verdict == "sat") {
-		return r, tried
-	}
-	// race the others (and variants of the primary); a definite answer stops the race unless every solver must answer
-	var wg sync.WaitGroup
-	pool := append([]solverSpec{}, solvers[1:]...)
-	pool = append(pool, variants...)
-	res := make([]SolveResult, len(pool))
-	ctx, cancel := context.WithCancel(context.Background())
-	for i, sp := range pool {
-		wg.Add(1)
-		go func(i int, sp solverSpec) {
-			defer wg.Done()
-			res[i] = runSolverCtx(ctx, sp, file, timeoutS, seed)
-			if strings.HasSuffix(sp.name, "/em") && res[i].Verdict == "sat" {
-				res[i].Verdict = "unknown" // without model-based instantiation a "sat" is not a model of the quantified part
+	if !all {
+		r := runSolver(solvers[0], file, timeoutS, seed)
+		tried = append(tried, r)
+		if r.Verdict == "unsat" || r.Verdict == "sat" {
+			return r, tried
+		}
+		tried = append(tried, race(file, timeoutS, seed, append(append([]solverSpec{}, solvers[1:]...), variants...), true)...)
+	} else {
+		cross := timeoutS / 4
+		if cross < 10 {
+			cross = 10
+		}
+		var wg sync.WaitGroup
+		res := make([]SolveResult, len(solvers))
+		for i, sp := range solvers {
+			wg.Add(1)
+			go func(i int, sp solverSpec) {
+				defer wg.Done()
+				t := cross
+				if i == 0 {
+					t = timeoutS
+				}
+				res[i] = runSolver(sp, file, t, seed)
+			}(i, sp)
+		}
+		wg.Wait()
+		tried = append(tried, res...)
+		decided := false
+		for _, x := range res {
+			if x.Verdict == "unsat" || x.Verdict == "sat" {
+				decided = true
 			}
-			if !all && (res[i].Verdict == "unsat" || res[i].Verdict == "sat") && !strings.HasSuffix(sp.name, "/em") {
-				cancel()
-			}
-		}(i, sp)
+		}
+		if !decided {
+			tried = append(tried, race(file, timeoutS, seed, variants, true)...)
+		}
 	}
-	wg.Wait()
-	cancel()
-	tried = append(tried, res...)
-	best := r
+	best := tried[0]
 	for _, x := range tried {
 		if x.Verdict == "unsat" && best.Verdict != "unsat" && best.Verdict != "sat" {
 			best = x
@@ -150,7 +164,6 @@ func discharge(file string, timeoutS int, seed int, all bool) (SolveResult, []So
 			best = x
 		}
 	}
-	// disagreement check
 	hasSat, hasUnsat := false, false
 	for _, x := range tried {
 		if x.Verdict == "sat" {
@@ -165,6 +178,29 @@ func discharge(file string, timeoutS int, seed int, all bool) (SolveResult, []So
 		best.Output = "solver disagreement (sat vs unsat)\n" + best.Output
 	}
 	return best, tried
+}
+
+// race runs the given solver configurations concurrently; with stopEarly the first definite answer cancels the rest.
+func race(file string, timeoutS int, seed int, pool []solverSpec, stopEarly bool) []SolveResult {
+	var wg sync.WaitGroup
+	res := make([]SolveResult, len(pool))
+	ctx, cancel := context.WithCancel(context.Background())
+	for i, sp := range pool {
+		wg.Add(1)
+		go func(i int, sp solverSpec) {
+			defer wg.Done()
+			res[i] = runSolverCtx(ctx, sp, file, timeoutS, seed)
+			if strings.HasSuffix(sp.name, "/em") && res[i].Verdict == "sat" {
+				res[i].Verdict = "unknown" // without model-based instantiation a "sat" is not a model of the quantified part
+			}
+			if stopEarly && (res[i].Verdict == "unsat" || res[i].Verdict == "sat") {
+				cancel()
+			}
+		}(i, sp)
+	}
+	wg.Wait()
+	cancel()
+	return res
 }
 
 func writeQuery(dir, name, text string) (string, error) {
